@@ -7,8 +7,10 @@
     its truthiness first), `get_disabled`, and the generator context manager `disabled()`
     (`previous = get_run_validators(); set_run_validators(False); try: yield finally: set_run_validators(previous)`),
     one fresh manager object per `enter`; under LIFO use the saved `previous` values form a stack;
-  * the three readers of the cell: the generated `__init__` (`if _config._run_validators is True:` block of
-    `_attrs_to_init_script` — through the shared initializer model `Model/Init.lean`, `Cfg.runValidators`),
+  * the three readers of the cell: the generated `__init__` / `__attrs_init__` (`if _config._run_validators is True:` block of
+    `_attrs_to_init_script`, between the per-field statements — factories, converters — and the
+    `__attrs_post_init__` call, after `__attrs_pre_init__`; through the shared initializer model
+    `Model/Init.lean`, `Cfg.runValidators`/`pre`/`post`),
     `attr.validate(inst)` (`_make.py`) and `setters.validate` (`setters.py`);
   * which hook an assignment runs: `define.wrap` (default `[convert, validate]` for `on_setattr=None`),
     `attrib()`/`attrs()` (lists become `setters.pipe`), `_ClassBuilder.add_setattr`
@@ -55,12 +57,20 @@ structure Field where
   validators : Nat
   conv : Bool
   onSet : Hook
+  /-- `default=Factory(f)`; constructions leave the argument out, so the factory runs -/
+  factory : Bool
   deriving DecidableEq, Repr, FromJson, ToJson, Inhabited
 
 structure Cls where
   /-- `attrs.define` (true) or `attr.s` (false) -/
   isDefine : Bool
   clsOnSet : Hook
+  /-- class-level `kw_only=True` (every field keyword-only) -/
+  kwOnly : Bool
+  /-- `__attrs_pre_init__` resolvable on the class: none / without / with parameters -/
+  pre : Pre
+  /-- `__attrs_post_init__` resolvable on the class -/
+  post : Bool
   /-- all fields in `__attrs_attrs__` order (inherited ones first) -/
   fields : List Field
   deriving DecidableEq, Repr, FromJson, ToJson, Inhabited
@@ -228,8 +238,9 @@ def runAssign (cls : Cls) (run : Bool) (fault : Option EventId) (f : Field) : Ru
 
 /-! ## Construction goes through the shared initializer model -/
 
-def toAttr (f : Field) : Attr :=
-  { name := f.name, alias := f.name, dflt := .none, init := true, kwOnly := false,
+def toAttr (kw : Bool) (f : Field) : Attr :=
+  { name := f.name, alias := f.name, dflt := if f.factory then .factory false else .none, init := true,
+    kwOnly := kw,
     conv := if f.conv then some { takesSelf := false, takesField := false } else none,
     validators := f.validators,
     onSet := match f.onSet with
@@ -245,13 +256,14 @@ def clsOnSetOf : Hook → ClsOnSet
   | .chain [.convert] => .convert
   | .chain _ => .hook
 
-/-- the call `C(x=v.x, y=v.y, …)` on the class, with the switch in position `run` -/
+/-- the call `C(x=v.x, y=v.y, …)` on the class (fields with a factory left out), with the switch in
+    position `run`; pre and post init hooks as the class has them -/
 def initCase (cls : Cls) (run : Bool) (fault : Option EventId) : Init.Case :=
-  { run := { cfg := { frozen := false, slots := false, cacheHash := false, isExc := false, pre := .none,
-                      post := false, clsHook := false, runValidators := run, collectByMro := true },
-             attrs := cls.fields.map toAttr,
+  { run := { cfg := { frozen := false, slots := false, cacheHash := false, isExc := false, pre := cls.pre,
+                      post := cls.post, clsHook := false, runValidators := run, collectByMro := true },
+             attrs := cls.fields.map (toAttr cls.kwOnly),
              own := cls.fields.map (·.name), bases := [], cacheIsSlot := false, fault := fault },
-    call := { pos := [], kw := cls.fields.map (fun f => (f.name, "v." ++ f.name)) },
+    call := { pos := [], kw := (cls.fields.filter (!·.factory)).map (fun f => (f.name, "v." ++ f.name)) },
     isDefine := cls.isDefine,
     clsOnSet := clsOnSetOf cls.clsOnSet }
 
